@@ -77,7 +77,7 @@ def run(check, repo: Repo) -> None:
                      f"knot {knot_idx} direction {comp_idx}", mod.line(s),
                      fail_detail=f"knot coordinate index {knot_idx} vs direction component index {comp_idx}")
     for n, m in other_clashes:
-        check.violated("C15-R1", f"transform_rows: axis clash `{unparse(n)[:50]}`", m, mod.line(n))
+        check.violated("C15-R1", f"transform_rows: axis clash `{unparse(n)[:50]}`", m, mod.line(n), definite=True)
     rets = [unparse(n.value) for n in ast.walk(tr) if isinstance(n, ast.Return)]
     check.decide(rets == ["(xa, ya)"], "C15-R1", "transform_rows returns (row coordinate, column coordinate)", str(rets), mod.line(tr),
                  fail_detail=f"returns {rets}")
@@ -197,7 +197,7 @@ def _knot_placement(check, mod, pre, repo=None) -> None:
         raise AnalysisError("preprocess: knot placement loop not found")
     k = KAT(pre, index_axes={"shape": IMG_AXES, "self.shape": {1: ROW, 2: COL}}).run(loop.body)
     for n, m in k.clashes:
-        check.violated("C15-R1", f"preprocess: axis clash `{unparse(n)[:60]}`", m, mod.line(n))
+        check.violated("C15-R1", f"preprocess: axis clash `{unparse(n)[:60]}`", m, mod.line(n), definite=True)
     v, u = k.env.get("v_slow"), k.env.get("u_fast")
     if v is None or u is None:
         raise AnalysisError("preprocess: kinds of v_slow / u_fast not derivable")
